@@ -69,7 +69,7 @@ def rule_shape(rule):
     if rule['explicit']:
         return 'explicit[' + '; '.join('.'.join(p['field']) + ':' + (tmpl_text(p['tmpl']) or '-')
                                        for p in rule['params']) + '] http[' + http + ']'
-    return 'implicit[' + http + ']'
+    return ('implicit-custom[' if rule.get('custom') else 'implicit[') + http + ']'
 
 
 def method_of(idx, rule):
@@ -80,9 +80,12 @@ def method_of(idx, rule):
         uri = f'/v1/m{idx}' + ('/alt' if bi else '') + ''.join('/' + var_text(v, idx % 2 == 1) for v in b)
         if not b:
             uri += ':call'
-        h = dict(verb=verb, uri=uri)
-        if verb in ('post', 'patch', 'put'):
-            h['body'] = '*'
+        if rule.get('custom'):
+            h = dict(verb='custom', kind='HEAD', uri=uri)      # HttpRule.custom is the primary (only) pattern
+        else:
+            h = dict(verb=verb, uri=uri)
+            if verb in ('post', 'patch', 'put'):
+                h['body'] = '*'
         http.append(h)
     m = dict(name=f'M{idx}', **{'in': f'M{idx}Request', 'out': 'Resp'}, http=http)
     if rule['explicit']:
@@ -215,6 +218,7 @@ def main(chk, args):
         # fixed corners (keyword pool, empty annotation) + a seeded sample of rules, at most 16 requests per rule
         corner = [k for k in rule_keys if by_rule[k][0]['src'].endswith('keyword.cfg')
                   or (by_rule[k][0]['rule']['explicit'] and not by_rule[k][0]['rule']['params'])]
+        corner += [k for k in rule_keys if by_rule[k][0]['rule'].get('custom')][:8]
         rest = [k for k in rule_keys if k not in corner]
         rule_keys = corner + rnd.sample(rest, min(len(rest), 260))
         for k in rule_keys:
@@ -373,7 +377,7 @@ def main(chk, args):
     chk.rule = ('cases = (routing rule, request) pairs chosen by TLC: exhaustive over the tiny/small/templates/keyword '
                 'scopes and seeded -simulate over the large scope (explicit rules of 0..4 parameters over <= 2 fields, '
                 'templates = every capture range over realistic token sequences, keys shared between parameters, nested '
-                'and reserved-word fields; implicit rules of 1..3 variables, optional additional binding); requests derived '
+                'and reserved-word fields; implicit rules of 1..3 variables, optional additional binding, or the `custom` pattern as the only binding); requests derived '
                 'from the templates (empty, matching, matching with characters needing escaping, broken); each case is '
                 'executed on sync gRPC, asyncio gRPC and REST.  non-trivial = at least one field the rule reads is non-empty; '
                 'distinct by (rule, request)')
@@ -403,6 +407,7 @@ def main(chk, args):
         'client-streaming methods are not in the quantifier (they send an empty implicit header by design)',
         'REST: a request whose path variables do not match the http rule strictly (non-empty segments, `**` >= 1 '
         'segment) may be refused by transcoding (no HTTP request at all); that is C04\'s subject and accepted here',
+        'a method bound only with the HttpRule `custom` pattern has no REST binding: the REST path is a refusal there',
         'header-pair order, other metadata entries and the spelling of percent-escapes (case, `+` vs %20) are not compared',
         'http verbs are assigned round-robin by the harness; `{f}` and `{f=*}` spellings of http variables alternate',
         'loopback gRPC/HTTP servers; character classes are represented by one character each (space & = % e-acute)']
